@@ -51,6 +51,12 @@ type c10Case struct {
 	C, L, K int
 	Ops     []pop `json:"ops"`
 	Real    bool  `json:"real_pool,omitempty"` // conformance run on the real sync.Pool (answers ignored)
+	// Directed (c10Directed): "twopools": two pools alive at once, made from the same allocator for the
+	// element types T and T2, used in turn; "idle": N buffers checked out together and all put back.
+	// Both on the real sync.Pool.
+	Directed string `json:"directed,omitempty"`
+	T2       string `json:"type2,omitempty"`
+	N        int    `json:"n,omitempty"`
 }
 
 // pbuf is the model's shadow of one buffer header: what its storage holds and its length.
@@ -432,7 +438,95 @@ func (w *pworld) key() [16]byte {
 	return k
 }
 
+// c10Directed runs the directed cases (real sync.Pool, sequential).
+func c10Directed(cs c10Case) (fs []F) {
+	fail := func(kind, format string, a ...any) {
+		fs = append(fs, core.Failf("Pool/"+kind, "[PoolAlloc(C=%d,L=%d,K=%d) %s] %s", cs.C, cs.L, cs.K, cs.Directed, fmt.Sprintf(format, a...)))
+	}
+	vs.Bind(vs.Passthrough)
+	defer vs.Unbind()
+	a := al(cs.C, cs.L, cs.K)
+	fresh := func(g dyn.Buf, t int, what string) bool {
+		want := header{cs.C, dyn.Types[t].Bits, cs.C * cs.L, cs.C * cs.K, cs.L, cs.K}
+		if h := hdr(g); h != want {
+			fail("fresh-shape", "%s: the pooled buffer has shape %+v, a fresh one %+v", what, h, want)
+			return false
+		}
+		fb := full(g)
+		for i := 0; i < fb.Len(); i++ {
+			if v := fb.Sample(i); v.B != 0 {
+				fail("fresh-nonzero", "%s: sample %d of the pooled buffer reads %v", what, i, v)
+				return false
+			}
+		}
+		return true
+	}
+	switch cs.Directed {
+	case "twopools":
+		t1, t2 := typeByName(cs.T), typeByName(cs.T2)
+		p1, p2 := dyn.NewPool(t1, a), dyn.NewPool(t2, a)
+		for round := 0; round < 3; round++ {
+			for k, p := range []dyn.Pool{p1, p2} {
+				t := []int{t1, t2}[k]
+				what := fmt.Sprintf("round %d, Get on the pool of %s (a pool of %s with the same allocator is in use too)", round, tn(t), tn([]int{t2, t1}[k]))
+				var g dyn.Buf
+				if pn, msg := dyn.Try(func() { g = p.Get() }); pn {
+					fail("panic", "%s panicked: %s", what, msg)
+					return
+				}
+				if g.T() != t {
+					fail("fresh-shape", "%s returned a buffer of element type %s", what, tn(g.T()))
+					return
+				}
+				if !fresh(g, t, what) {
+					return
+				}
+				fill(full(g), int64(3+round))
+				if pn, msg := dyn.Try(func() { p.Put(g) }); pn {
+					fail("put-panic", "%s: Put of that buffer panicked: %s", what, msg)
+					return
+				}
+			}
+		}
+	case "idle":
+		t := typeByName(cs.T)
+		p := dyn.NewPool(t, a)
+		done := make(chan struct{})
+		go func() {
+			defer close(done)
+			defer func() {
+				if r := recover(); r != nil {
+					fail("panic", "%d buffers checked out together and put back: %v", cs.N, r)
+				}
+			}()
+			for round := 0; round < 2; round++ {
+				var held []dyn.Buf
+				for i := 0; i < cs.N; i++ {
+					g := p.Get()
+					if !fresh(g, t, fmt.Sprintf("round %d, buffer %d of %d held together", round, i+1, cs.N)) {
+						return
+					}
+					fill(full(g), int64(1+i%50))
+					held = append(held, g)
+				}
+				for _, g := range held {
+					p.Put(g)
+				}
+			}
+		}()
+		select {
+		case <-done:
+		case <-time.After(20 * time.Second):
+			fail("put-blocks", "%d buffers checked out together and put back: the calls did not return within 20 s (Get and Put never wait for each other)", cs.N)
+		}
+	}
+	return
+}
+
 func c10Replay(cs c10Case, checkFrom int) (w *pworld, fs []F) {
+	if cs.Directed != "" {
+		return nil, core.Guard("Pool", func() []F { return c10Directed(cs) })
+	}
 	w, unbind := newPWorld(cs)
 	defer unbind()
 	for i, o := range cs.Ops {
@@ -685,6 +779,20 @@ func init() {
 			}
 			longRounds = 0
 			c.Set("directed_all_types_and_wide_pool_steps", longSteps-directedFrom)
+			// two pools alive at once whose element types have the same width (same allocator), used in turn;
+			// many buffers of one pool idle at once
+			var dcs []c10Case
+			for _, pr := range [][2]int{{dyn.Int32, dyn.Float32}, {dyn.Float32, dyn.Uint32}, {dyn.Int64, dyn.Float64}, {dyn.Uint64, dyn.Int}, {dyn.Int8, dyn.Uint8}, {dyn.Int16, dyn.Uint16}, {dyn.Int16, dyn.MyInt16ID()}, {dyn.Int8, dyn.Int16}} {
+				for _, sh := range [][3]int{{2, 0, 4}, {1, 3, 5}} {
+					dcs = append(dcs, c10Case{T: tn(pr[0]), T2: tn(pr[1]), C: sh[0], L: sh[1], K: sh[2], Directed: "twopools"})
+				}
+			}
+			dcs = append(dcs, c10Case{T: "int16", C: 2, L: 1, K: 3, Directed: "idle", N: 70}, c10Case{T: "float64", C: 1, L: 0, K: 8, Directed: "idle", N: 300})
+			for _, cs := range dcs {
+				_, fs := c10Replay(cs, 0)
+				c.Check(cs, true, fs)
+				trans += 6
+			}
 			trans += longSteps
 			c.Set("long_linear_history_steps", longSteps)
 			c.Set("states", states)
